@@ -119,6 +119,7 @@ type MayPanic struct {
 	sortClosure map[string]int
 	frozen      bool
 	tsBound     map[types.Object]*types.Var // type-switch bound variable -> interface parameter it came from
+	alwaysNil   map[types.Object]bool       // parameters that receive the nil literal at every call site
 	CheckNil bool
 	// ExtraCondFacts lets a client derive domain facts from conditions (e.g. "arr:x").
 	ExtraCondFacts func(m *MayPanic, e ast.Expr, pol bool) map[string]int
@@ -135,6 +136,8 @@ type guardFact struct {
 }
 
 type Precond struct {
+	Param2 int // for var-index preconditions: the index parameter
+	Off    int // idx + Off < len(slice)
 	Suffix string // path below the parameter, e.g. ".Type"
 	Param int
 	Kind  PanicKind
@@ -154,10 +157,126 @@ func NewMayPanic(pk *packages.Package) *MayPanic {
 	m := &MayPanic{Pkg: pk, info: pk.TypesInfo, guardSummaries: map[*types.Func][]guardFact{}, rxGroups: map[types.Object]int{}, Preconds: map[*types.Func][]Precond{}, NilableResult: map[string]bool{}, sortClosure: map[string]int{}}
 	m.collectRegexps()
 	m.summariseGuards()
+	m.collectAlwaysNil()
 	return m
 }
 
-func es(e ast.Expr) string { return types.ExprString(e) }
+// collectAlwaysNil: unexported functions whose pointer parameter is the nil literal at every
+// call site in the package; branches requiring it to be non-nil are dead.
+func (m *MayPanic) collectAlwaysNil() {
+	m.alwaysNil = map[types.Object]bool{}
+	type st struct{ calls, nils int }
+	stats := map[*types.Var]*st{}
+	for _, fd := range allFuncs(m.Pkg) {
+		ast.Inspect(fd.Body, func(n ast.Node) bool {
+			c, ok := n.(*ast.CallExpr)
+			if !ok {
+				return true
+			}
+			fn := Callee(m.info, c)
+			if fn == nil || fn.Pkg() != m.Pkg.Types || fn.Exported() {
+				return true
+			}
+			sig := fn.Type().(*types.Signature)
+			for i, a := range c.Args {
+				if i >= sig.Params().Len() {
+					break
+				}
+				p := sig.Params().At(i)
+				if _, isPtr := p.Type().Underlying().(*types.Pointer); !isPtr {
+					continue
+				}
+				s := stats[p]
+				if s == nil {
+					s = &st{}
+					stats[p] = s
+				}
+				s.calls++
+				if IsNil(m.info, a) {
+					s.nils++
+				}
+			}
+			return true
+		})
+	}
+	// function values (method values / references without call) defeat the summary
+	referenced := map[*types.Func]bool{}
+	for _, f := range m.Pkg.Syntax {
+		ast.Inspect(f, func(n ast.Node) bool {
+			switch x := n.(type) {
+			case *ast.CallExpr:
+				// skip the Fun position of calls
+				for _, a := range x.Args {
+					ast.Inspect(a, func(nn ast.Node) bool {
+						if id, ok := nn.(*ast.Ident); ok {
+							if fn, ok := m.info.Uses[id].(*types.Func); ok {
+								if _, isCall := nn.(*ast.CallExpr); !isCall {
+									referenced[fn] = referenced[fn] || false
+								}
+							}
+						}
+						return true
+					})
+				}
+			}
+			return true
+		})
+	}
+	for p, s := range stats {
+		if s.calls > 0 && s.calls == s.nils {
+			m.alwaysNil[p] = true
+		}
+	}
+}
+
+// deadCond: the condition can never hold because it requires an always-nil parameter to be
+// non-nil.
+func (m *MayPanic) deadCond(e ast.Expr) bool {
+	var conj []Lit
+	Flatten(e, true, &conj)
+	for _, l := range conj {
+		be, ok := ast.Unparen(l.E).(*ast.BinaryExpr)
+		if !ok || !l.Pos || be.Op != token.NEQ || !IsNil(m.info, be.Y) {
+			continue
+		}
+		if id, ok := ast.Unparen(be.X).(*ast.Ident); ok && m.alwaysNil[m.info.Uses[id]] {
+			return true
+		}
+	}
+	return false
+}
+
+func es(e ast.Expr) string {
+	if e == nil {
+		return ""
+	}
+	return normParen(types.ExprString(ast.Unparen(e)))
+}
+
+// normParen rewrites "(*x)" as "*x" so that facts about *x and (*x) share a key.
+func normParen(s string) string {
+	for {
+		i := strings.Index(s, "(*")
+		if i < 0 {
+			return s
+		}
+		j := strings.IndexByte(s[i:], ')')
+		if j < 0 {
+			return s
+		}
+		inner := s[i+1 : i+j]
+		isCall := false
+		if i > 0 {
+			c := s[i-1]
+			isCall = c == '_' || c == ')' || c == ']' || (c >= 'a' && c <= 'z') || (c >= 'A' && c <= 'Z') || (c >= '0' && c <= '9')
+		}
+		if isCall || strings.ContainsAny(inner, "( ,") {
+			// not a simple (*ident.path): leave, but avoid an endless loop
+			return s[:i+2] + normParen(s[i+2:])
+		}
+		s = s[:i] + inner + s[i+j+1:]
+	}
+}
 
 func (m *MayPanic) constInt(e ast.Expr) (int, bool) {
 	if tv, ok := m.info.Types[e]; ok && tv.Value != nil && tv.Value.Kind() == constant.Int {
@@ -168,10 +287,47 @@ func (m *MayPanic) constInt(e ast.Expr) (int, bool) {
 }
 
 func (m *MayPanic) lenArg(e ast.Expr) (string, bool) {
-	if c, ok := ast.Unparen(e).(*ast.CallExpr); ok && len(c.Args) == 1 && IsBuiltinCall(m.info, c, "len") {
+	e = ast.Unparen(e)
+	if id, ok := e.(*ast.Ident); ok && m.fd != nil {
+		// l := len(x) (single definition, x not reassigned in between is approximated by
+		// requiring x itself to have at most one assignment)
+		def := ResolveLocal(m.info, m.fd.Body, id)
+		if def != ast.Expr(id) {
+			if c, ok := ast.Unparen(def).(*ast.CallExpr); ok && len(c.Args) == 1 && IsBuiltinCall(m.info, c, "len") {
+				if m.stable(c.Args[0]) {
+					return es(c.Args[0]), true
+				}
+			}
+		}
+		return "", false
+	}
+	if c, ok := e.(*ast.CallExpr); ok && len(c.Args) == 1 && IsBuiltinCall(m.info, c, "len") {
 		return es(c.Args[0]), true
 	}
 	return "", false
+}
+
+// stable: the expression is a variable (or field path of one) that is never reassigned in
+// the current function after its definition.
+func (m *MayPanic) stable(e ast.Expr) bool {
+	for {
+		switch x := ast.Unparen(e).(type) {
+		case *ast.Ident:
+			v, _ := m.info.Uses[x].(*types.Var)
+			if v == nil {
+				return false
+			}
+			n := len(AssignmentsTo(m.info, m.fd.Body, v))
+			if isParamOrRecv(m.info, m.fd, v) {
+				return n == 0
+			}
+			return n <= 1
+		case *ast.SelectorExpr:
+			e = x.X
+		default:
+			return false
+		}
+	}
 }
 
 // collectRegexps records the number of capture groups of regexps built from constant
@@ -364,6 +520,11 @@ func (m *MayPanic) condFacts(e ast.Expr, pol bool) mpFacts {
 	case *ast.CallExpr:
 		if pol {
 			if fn := Callee(m.info, x); fn != nil {
+				if n := CalleeName(fn); (n == "strings.HasPrefix" || n == "strings.HasSuffix") && len(x.Args) == 2 {
+					if c, ok := StringVal(m.info, x.Args[1]); ok && len(c) > 0 {
+						f["len:"+es(x.Args[0])] = len(c)
+					}
+				}
 				for _, gf := range m.guardSummaries[fn] {
 					if gf.param < len(x.Args) {
 						i := strings.IndexByte(gf.key, ':')
@@ -463,6 +624,16 @@ func (m *MayPanic) condFacts(e ast.Expr, pol bool) mpFacts {
 				}
 			}
 		}
+		if op == token.LEQ {
+			if _, isC := m.constInt(Y); !isC {
+				f["le:"+es(X)+":"+es(Y)] = 1
+			}
+		}
+		if op == token.GEQ {
+			if _, isC := m.constInt(X); !isC {
+				f["le:"+es(Y)+":"+es(X)] = 1
+			}
+		}
 		if IsNil(m.info, Y) {
 			if op == token.NEQ {
 				f["nn:"+es(X)] = 1
@@ -518,6 +689,9 @@ func (m *MayPanic) body() ast.Node {
 func (m *MayPanic) producerLen(e ast.Expr) int {
 	switch x := ast.Unparen(e).(type) {
 	case *ast.CallExpr:
+		if tv, ok := m.info.Types[x.Fun]; ok && tv.IsType() && len(x.Args) == 1 {
+			return m.producerLen(x.Args[0]) // conversion
+		}
 		if fn := Callee(m.info, x); fn != nil && fn.Pkg() != nil {
 			switch fn.Pkg().Path() + "." + fn.Name() {
 			case "strings.Split", "strings.SplitN", "strings.SplitAfter", "strings.SplitAfterN":
@@ -793,6 +967,15 @@ func (m *MayPanic) checkDeref(base ast.Expr, at ast.Expr, f mpFacts) {
 }
 
 func paramIdx(info *types.Info, fd *ast.FuncDecl, v *types.Var) int {
+	if fd.Recv != nil {
+		for _, fl := range fd.Recv.List {
+			for _, n := range fl.Names {
+				if info.Defs[n] == v {
+					return -1
+				}
+			}
+		}
+	}
 	i := 0
 	for _, fl := range fd.Type.Params.List {
 		for _, n := range fl.Names {
@@ -835,7 +1018,16 @@ func (m *MayPanic) checkCallPreconds(c *ast.CallExpr, f mpFacts) {
 		if p.Param >= len(c.Args) {
 			continue
 		}
-		a := ast.Unparen(c.Args[p.Param])
+		var a ast.Expr
+		if p.Param < 0 {
+			se, ok := ast.Unparen(c.Fun).(*ast.SelectorExpr)
+			if !ok {
+				continue
+			}
+			a = ast.Unparen(se.X)
+		} else {
+			a = ast.Unparen(c.Args[p.Param])
+		}
 		switch p.Kind {
 		case PKNilDeref:
 			if !m.CheckNil {
@@ -856,6 +1048,26 @@ func (m *MayPanic) checkCallPreconds(c *ast.CallExpr, f mpFacts) {
 						}
 					}
 				}
+			}
+		case PKVarIndex:
+			if p.Param2 < 0 || p.Param2 >= len(c.Args) {
+				continue
+			}
+			ia := ast.Unparen(c.Args[p.Param2])
+			ub := f["ub:"+es(a)+":"+es(ia)]
+			if ub > 0 && p.Off <= ub-1 {
+				m.report(PKVarIndex, c, true, fmt.Sprintf("%s + %d < len(%s) established for callee %s", es(ia), p.Off, es(a), fn.Name()), nil, 0)
+			} else if p.Off == 0 && m.loopBounds(ia, es(a)) {
+				m.report(PKVarIndex, c, true, "loop index over the same slice", nil, 0)
+			} else if bid, ok := ia.(*ast.BinaryExpr); ok && bid.Op == token.ADD && p.Off == 0 {
+				// f(x, i+1) under i+1 < len(x)
+				if k, ok := m.constInt(bid.Y); ok && f["ub:"+es(a)+":"+es(bid.X)] > k {
+					m.report(PKVarIndex, c, true, "bound established for the shifted index", nil, 0)
+				} else {
+					m.report(PKVarIndex, c, false, fmt.Sprintf("callee %s indexes %s[%s+%d] (%s); no bound on this same slice holds at the call", fn.Name(), es(a), es(ia), p.Off, p.Expr), nil, 0)
+				}
+			} else {
+				m.report(PKVarIndex, c, false, fmt.Sprintf("callee %s indexes %s[%s+%d] (%s); no bound on this same slice holds at the call", fn.Name(), es(a), es(ia), p.Off, p.Expr), nil, 0)
 			}
 		case PKIndex:
 			have := m.haveLen(f, a)
@@ -910,6 +1122,18 @@ func (m *MayPanic) checkIndex(x *ast.IndexExpr, f mpFacts) {
 			}
 		}
 	}
+	if need < 0 {
+		if id, ok := ast.Unparen(x.Index).(*ast.Ident); ok && m.fd != nil {
+			def := ResolveLocal(m.info, m.fd.Body, id)
+			if b, ok := ast.Unparen(def).(*ast.BinaryExpr); ok && b.Op == token.SUB {
+				if la, ok := m.lenArg(b.X); ok && la == es(x.X) {
+					if k, ok := m.constInt(b.Y); ok {
+						need = k
+					}
+				}
+			}
+		}
+	}
 	if need < 0 && m.sortClosure[es(x.X)] > 0 {
 		m.report(PKVarIndex, x, true, "index supplied by sort.Slice for this same slice", nil, 0)
 		return
@@ -921,11 +1145,12 @@ func (m *MayPanic) checkIndex(x *ast.IndexExpr, f mpFacts) {
 			return
 		}
 		parm := m.rootParam(x.X)
-		if parm != nil && isParamOf(m.info, m.fd, parm) && strings.HasPrefix(es(x.X), parm.Name()) && !m.assignedIn(parm) {
+		if parm != nil && isParamOrRecv(m.info, m.fd, parm) && strings.HasPrefix(es(x.X), parm.Name()) && !m.assignedIn(parm) {
 			// index of (a field path of) a parameter: precondition, checked at call sites
 			if fn, ok := m.info.Defs[m.fd.Name].(*types.Func); ok {
 				suffix := strings.TrimPrefix(es(x.X), parm.Name())
-				if suffix == "" || strings.HasPrefix(suffix, ".") {
+				isRecv := !isParamOf(m.info, m.fd, parm)
+				if (suffix == "" || strings.HasPrefix(suffix, ".")) && !(isRecv && suffix != "") {
 					if !m.frozen {
 						m.Preconds[fn] = append(m.Preconds[fn], Precond{Param: paramIdx(m.info, m.fd, parm), Suffix: suffix, Kind: PKIndex, Need: need, Expr: es(x), Pos: x.Pos()})
 					}
@@ -952,12 +1177,22 @@ func (m *MayPanic) checkIndex(x *ast.IndexExpr, f mpFacts) {
 		}
 	}
 	sl := es(x.X)
+	// p - q with 0 ≤ q ≤ p: bounded like p
+	if b, ok := idx.(*ast.BinaryExpr); ok && b.Op == token.SUB {
+		if _, isConst := m.constInt(b.Y); !isConst && f["le:"+es(b.Y)+":"+es(b.X)] > 0 && m.nonNegCounter(b.Y) {
+			base, off = b.X, 0
+		}
+	}
 	// enclosing loops
 	if id, ok := ast.Unparen(base).(*ast.Ident); ok {
 		o := m.info.Uses[id]
 		for _, lb := range m.loopVars {
 			if lb.idx == o && lb.max > 0 && off == 0 && m.haveLen(f, x.X) >= lb.max {
 				m.report(PKVarIndex, x, true, fmt.Sprintf("index < %d (exact length of the ranged literal) ≤ len of this slice", lb.max), nil, 0)
+				return
+			}
+			if lb.idx == o && off == 0 && f["eqlen:"+sl+":"+lb.slice] > 0 {
+				m.report(PKVarIndex, x, true, "slice made with the length of the ranged slice", nil, 0)
 				return
 			}
 			if lb.idx == o && lb.slice == sl {
@@ -976,6 +1211,22 @@ func (m *MayPanic) checkIndex(x *ast.IndexExpr, f mpFacts) {
 		if off >= 0 || f["lb:"+es(base)] >= -off+1 {
 			m.report(PKVarIndex, x, true, "dominating bound on the same slice", nil, 0)
 			return
+		}
+	}
+	// both the slice and the index are unmodified parameters: a precondition for the callers
+	if sid, ok := ast.Unparen(x.X).(*ast.Ident); ok && m.fd != nil {
+		if bid, ok := ast.Unparen(base).(*ast.Ident); ok {
+			sv, _ := m.info.Uses[sid].(*types.Var)
+			bv, _ := m.info.Uses[bid].(*types.Var)
+			if sv != nil && bv != nil && isParamOf(m.info, m.fd, sv) && isParamOf(m.info, m.fd, bv) && !m.assignedIn(sv) && !m.assignedIn(bv) && off >= 0 {
+				if fn, ok := m.info.Defs[m.fd.Name].(*types.Func); ok {
+					if !m.frozen {
+						m.Preconds[fn] = append(m.Preconds[fn], Precond{Param: paramIdx(m.info, m.fd, sv), Param2: paramIdx(m.info, m.fd, bv), Off: off, Kind: PKVarIndex, Expr: es(x), Pos: x.Pos()})
+					}
+					m.report(PKVarIndex, x, true, "parameters: bound checked at call sites", sv, 0)
+					return
+				}
+			}
 		}
 	}
 	m.report(PKVarIndex, x, false, fmt.Sprintf("no bound `%s < len(%s)` on this same slice dominates the index", es(idx), sl), m.rootParam(x.X), 0)
@@ -1074,28 +1325,35 @@ func (m *MayPanic) stmt(s ast.Stmt, f mpFacts) mpFacts {
 			f = m.stmt(x.Init, f)
 		}
 		m.checkExpr(x.Cond, f)
-		m.block(x.Body.List, f.with(m.condFacts(x.Cond, true)))
+		if m.deadCond(x.Cond) {
+			// then-branch unreachable (a parameter that is nil at every call site must be non-nil)
+			if x.Else != nil {
+				return m.stmt(x.Else, f)
+			}
+			return f
+		}
+		thenOut := m.block(x.Body.List, f.with(m.condFacts(x.Cond, true)))
+		elseOut := f.with(m.condFacts(x.Cond, false))
 		elseTerm := false
 		if x.Else != nil {
 			switch e := x.Else.(type) {
 			case *ast.BlockStmt:
-				m.block(e.List, f.with(m.condFacts(x.Cond, false)))
+				elseOut = m.block(e.List, elseOut)
 				elseTerm = Terminates(m.info, e.List)
 			default:
-				m.stmt(e, f.with(m.condFacts(x.Cond, false)))
+				elseOut = m.stmt(e, elseOut)
 				elseTerm = Terminates(m.info, []ast.Stmt{e})
 			}
 		}
-		// assignments inside the branches kill facts
-		f = f.clone()
-		m.killAssigned(x.Body, f)
-		if x.Else != nil {
-			m.killAssigned(x.Else, f)
-		}
-		if Terminates(m.info, x.Body.List) {
-			f = f.with(m.condFacts(x.Cond, false))
-		} else if elseTerm {
-			f = f.with(m.condFacts(x.Cond, true))
+		switch {
+		case Terminates(m.info, x.Body.List) && elseTerm:
+			f = mpFacts{}
+		case Terminates(m.info, x.Body.List):
+			f = elseOut
+		case elseTerm:
+			f = thenOut
+		default:
+			f = intersect(thenOut, elseOut)
 		}
 	case *ast.AssignStmt:
 		for _, r := range x.Rhs {
@@ -1298,6 +1556,46 @@ func (m *MayPanic) stmt(s ast.Stmt, f mpFacts) mpFacts {
 	return f
 }
 
+func (m *MayPanic) loopBounds(idx ast.Expr, slice string) bool {
+	id, ok := ast.Unparen(idx).(*ast.Ident)
+	if !ok {
+		return false
+	}
+	o := m.info.Uses[id]
+	for _, lb := range m.loopVars {
+		if lb.idx == o && lb.slice == slice {
+			return true
+		}
+	}
+	return false
+}
+
+// nonNegCounter: a local whose only assignments are one `:= <const ≥ 0>` and increments.
+func (m *MayPanic) nonNegCounter(e ast.Expr) bool {
+	id, ok := ast.Unparen(e).(*ast.Ident)
+	if !ok || m.fd == nil {
+		return false
+	}
+	v, _ := m.info.Uses[id].(*types.Var)
+	if v == nil {
+		return false
+	}
+	inits := 0
+	for _, a := range AssignmentsTo(m.info, m.fd.Body, v) {
+		if a.Op == token.INC {
+			continue
+		}
+		if a.Rhs != nil && !a.IsRange && a.ResultIx < 0 {
+			if k, ok := m.constInt(a.Rhs); ok && k >= 0 {
+				inits++
+				continue
+			}
+		}
+		return false
+	}
+	return inits == 1
+}
+
 func (m *MayPanic) onlyIncremented(loop *ast.ForStmt, v ast.Expr) bool {
 	name := es(v)
 	ok := true
@@ -1446,6 +1744,11 @@ func (m *MayPanic) assignFacts(l, r ast.Expr, f mpFacts) {
 		}
 		if IsBuiltinCall(m.info, x, "new") {
 			f["nn:"+ls] = 1
+		}
+		if IsBuiltinCall(m.info, x, "make") && len(x.Args) >= 2 {
+			if la, ok := m.lenArg(x.Args[1]); ok {
+				f["eqlen:"+ls+":"+la] = 1
+			}
 		}
 	}
 }
